@@ -93,6 +93,14 @@ def gearParts (fn : String) (j : Json) : Option (Except String Json) :=
       let m ← getGearMeta (← field j "meta")
       let k ← Simaple.Drv.BonusJ.kindOf (← str (← field j "kind"))
       pure (ofRes (bonusImprovement m k (← int (← field j "grade"))))
+  /- all (kind, grade) cases of one gear in one request -/
+  | "gp_bonus_grid" => some do
+      let m ← getGearMeta (← field j "meta")
+      let cases ← (← list (← field j "cases")).mapM fun c => do
+        match ← list c with
+        | [k, g] => pure ((← Simaple.Drv.BonusJ.kindOf (← str k)), (← int g))
+        | _ => throw "case: [kind, grade] expected"
+      pure (Json.arr (cases.map fun (k, g) => ofRes (bonusImprovement m k g)).toArray)
   | "gp_spec" => some do
       let s ← getSpec (← field j "spec")
       pure (Json.mkObj [("valid", Json.bool s.valid),
